@@ -573,3 +573,56 @@ def loop_binding(target: ast.expr, it: ast.expr) -> tuple[dict[str, ast.expr], l
     for e in list(env.values()) + counts:
         ast.fix_missing_locations(e)
     return env, counts
+
+
+# ---------------------------------------------------------------------------------------------------------------
+# if/else trees read back as conditional expressions (the loader reads `x = a if c else b` as an if/else statement;
+# guard clauses and if/else chains are the same thing to the rules)
+def _has_return(stmts: list[ast.stmt]) -> bool:
+    return any(isinstance(n, ast.Return) for s in stmts for n in ast.walk(s) if not isinstance(s, (ast.FunctionDef, ast.ClassDef)))
+
+
+def returned_value(stmts: list[ast.stmt]) -> ast.expr | None:
+    """The value a block returns, as one (possibly nested) conditional expression; None when returns sit in loops/try or a path falls through."""
+    for i, s in enumerate(stmts):
+        if isinstance(s, ast.Return):
+            return s.value if s.value is not None else ast.Constant(value=None)
+        if isinstance(s, ast.If):
+            if not _has_return([s]):
+                continue
+            a = returned_value(s.body)
+            b = returned_value([*s.orelse, *stmts[i + 1:]]) if a is not None else None
+            if a is None:
+                # `if c: <no return> else: return` - swap roles
+                b2 = returned_value(s.orelse) if s.orelse else None
+                a2 = returned_value([*s.body, *stmts[i + 1:]]) if b2 is not None else None
+                if a2 is not None and b2 is not None:
+                    return ast.fix_missing_locations(ast.copy_location(ast.IfExp(test=s.test, body=a2, orelse=b2), s))
+                return None
+            if b is None:
+                return None
+            return ast.fix_missing_locations(ast.copy_location(ast.IfExp(test=s.test, body=a, orelse=b), s))
+        if isinstance(s, (ast.For, ast.While, ast.Try, ast.With)) and _has_return([s]):
+            return None
+        if isinstance(s, ast.Raise):
+            return None
+    return None
+
+
+def assigned_value(stmts: list[ast.stmt], is_target) -> ast.expr | None:
+    """The value a block leaves in a target (`is_target(expr) -> bool`), as one conditional expression over the if/else that assigns it; None if not decidable."""
+    val: ast.expr | None = None
+    for s in stmts:
+        if isinstance(s, ast.Assign) and len(s.targets) == 1 and is_target(s.targets[0]):
+            val = s.value
+        elif isinstance(s, ast.If) and any(isinstance(n, ast.Assign) and any(is_target(t) for t in n.targets) for n in ast.walk(s)):
+            a = assigned_value(s.body, is_target)
+            b = assigned_value(s.orelse, is_target) if s.orelse else val
+            if a is None:
+                a = val
+            if a is None or b is None:
+                return None
+            val = ast.fix_missing_locations(ast.copy_location(ast.IfExp(test=s.test, body=a, orelse=b), s))
+        elif isinstance(s, (ast.For, ast.While, ast.Try, ast.With)) and any(isinstance(n, ast.Assign) and any(is_target(t) for t in n.targets) for n in ast.walk(s)):
+            return None
+    return val
